@@ -572,6 +572,21 @@ class Unit:
         mark = (indent + '#[verifier::external_body] // ASSUMED-CONTRACT: proved in the unit that owns this function\n') if assumed else ''
         text = mark + indent + ' '.join(quals + [sig]) + spec + '\n' + indent + body + '\n'
         text = self.fix_assoc(text)
+        if c.requires and not assumed:
+            # vacuity canary: a twin lemma with the same precondition and `ensures false` must FAIL
+            _n, _g, _ps, _r, _w = src.fn_sig_parts(f, {})
+            ps = []
+            for prm in _ps:
+                prm = prm.strip()
+                if re.fullmatch(r"&?\s*('[a-z_]+\s+)?(mut\s+)?self", prm):
+                    st = subst_text(im.selfty, self.subst) if im is not None else 'Self'
+                    ps.append('self_: %s%s' % ('&' if prm.startswith('&') else '', re.sub(r"^&\s*('[a-z_]+\s+)?", '', st)))
+                else:
+                    ps.append(re.sub(r'^mut\s+', '', subst_text(re.sub(r"'[a-z_]+\s+", '', prm), self.subst)))
+            cname = 'canary_pre_%d' % len(self.canaries)
+            ctext = 'pub proof fn %s(%s)\n    requires %s\n    ensures false\n{}\n' % (
+                cname, ', '.join(ps), ', '.join(re.sub(r'\bself\b', 'self_', r) for r in c.requires))
+            self.canaries.append((cname + ' (precondition of %s)' % self.obligation_name(im, f), self.fix_assoc(ctext)))
         lo = line0
         hi = line0 + text.count('\n') - 1
         name = self.obligation_name(im, f)
